@@ -306,16 +306,22 @@ def guarded(fn, seconds=2.0):
     """run fn under a *repeating* alarm: pyg_base swallows exceptions in places (try/except around as_primitive),
     a single SIGALRM can be lost inside a spinning loop.  A call normally takes well under 10 ms; the budget
     shrinks after the first few expiries so that a tree on which many calls spin is still reported quickly."""
-    old = signal.signal(signal.SIGALRM, _tick)
-    signal.setitimer(signal.ITIMER_REAL, seconds if TIMEOUTS[0] < 3 else 0.25, 0.05)
+    # CPU time (ITIMER_VIRTUAL), not wall-clock: a spinning merge loop burns CPU whatever the load on the machine, and a loaded
+    # machine must not turn a slow call into a "did not return"; wall-clock backstop of 30 s
+    old = signal.signal(signal.SIGVTALRM, _tick)
+    old_r = signal.signal(signal.SIGALRM, _tick)
+    signal.setitimer(signal.ITIMER_VIRTUAL, seconds if TIMEOUTS[0] < 3 else 0.25, 0.05)
+    signal.setitimer(signal.ITIMER_REAL, 30.0, 0.05)
     try:
         return fn()
     except Timeout:
         TIMEOUTS[0] += 1
         raise
     finally:
+        signal.setitimer(signal.ITIMER_VIRTUAL, 0)
         signal.setitimer(signal.ITIMER_REAL, 0)
-        signal.signal(signal.SIGALRM, old)
+        signal.signal(signal.SIGVTALRM, old)
+        signal.signal(signal.SIGALRM, old_r)
 
 
 def enc_dictable(d):
